@@ -1,6 +1,6 @@
 SPECIFICATION Spec
 CONSTANTS
-  Problems <- ProblemsQ
+  Problems <- ProblemsQA
   LastPos = TRUE
 INVARIANT NeverWorse
 INVARIANT LossConsistent
